@@ -21,19 +21,24 @@ Definition row_matches (c pm lm t : Z) (row : Z * Z * Z * Z * list Z) : bool :=
 Definition resolves (c pm lm t : Z) : bool := existsb (row_matches c pm lm t) impl_rows.
 
 (* operations of the property's table *)
-Inductive op := ReadView | MutView | ArrayView | IndexView | Resize | CloneOp | LockOp | UnlockOp | ToRO | ToRW | ToNA.
-Definition all_ops : list op := [ReadView; MutView; ArrayView; IndexView; Resize; CloneOp; LockOp; UnlockOp; ToRO; ToRW; ToNA].
+Inductive op := ReadView | MutView | ArrayView | IndexView | Resize | CloneOp | LockOp | UnlockOp | ToRO | ToRW | ToNA
+              | MutArrayView | DerefMutView | AsRefView | AsMutView | AsRefArrayView | AsMutArrayView.
+Definition all_ops : list op := [ReadView; MutView; ArrayView; IndexView; Resize; CloneOp; LockOp; UnlockOp; ToRO; ToRW; ToNA;
+                                 MutArrayView; DerefMutView; AsRefView; AsMutView; AsRefArrayView; AsMutArrayView].
 
 Definition trait_of (o : op) : Z :=
   match o with
   | ReadView => T_Bytes | MutView => T_MutBytes | ArrayView => T_ByteArray | IndexView => T_Deref
   | Resize => T_ResizableBytes | CloneOp => T_Clone | LockOp => T_Lock | UnlockOp => T_Unlock
   | ToRO => T_ProtectReadOnly | ToRW => T_ProtectReadWrite | ToNA => T_ProtectNoAccess
+  | MutArrayView => T_MutByteArray | DerefMutView => T_DerefMut | AsRefView => T_AsRef | AsMutView => T_AsMut
+  | AsRefArrayView => T_AsRefArray | AsMutArrayView => T_AsMutArray
   end.
 
 Definition op_code (o : op) : Z :=
   match o with ReadView => 0 | MutView => 1 | ArrayView => 2 | IndexView => 3 | Resize => 4 | CloneOp => 5
-             | LockOp => 6 | UnlockOp => 7 | ToRO => 8 | ToRW => 9 | ToNA => 10 end.
+             | LockOp => 6 | UnlockOp => 7 | ToRO => 8 | ToRW => 9 | ToNA => 10
+             | MutArrayView => 11 | DerefMutView => 12 | AsRefView => 13 | AsMutView => 14 | AsRefArrayView => 15 | AsMutArrayView => 16 end.
 Definition op_of_code (z : Z) : op :=
   nth (Z.to_nat z) all_ops ReadView.
 
@@ -49,6 +54,10 @@ Definition permitted (c pm lm : Z) (o : op) : bool :=
   | UnlockOp => true
   | ToRO | ToRW => true
   | ToNA => lm =? 0                                   (* no no-access transition on a locked region *)
+  | MutArrayView | AsMutArrayView => (c =? 2) && (pm =? 0)
+  | DerefMutView | AsMutView => pm =? 0
+  | AsRefView => negb (pm =? 2)
+  | AsRefArrayView => false                           (* the crate offers no AsRef<[u8; N]> on a protected region *)
   end.
 
 Definition cells : list (Z * Z * Z) :=
@@ -57,6 +66,23 @@ Definition cells : list (Z * Z * Z) :=
 Definition table_agrees : bool :=
   forallb (fun cell : Z * Z * Z => let '(c, pm, lm) := cell in
              forallb (fun o => Bool.eqb (resolves c pm lm (trait_of o)) (permitted c pm lm o)) all_ops) cells.
+
+(* closed world: EVERY impl row for a Protected<..> type, whatever its trait, respects the state:
+   a trait that hands out or needs write access only on read-write regions, one that hands out
+   read access never on no-access regions, lock only on unlocked, no-access only on unlocked;
+   a row whose trait is in none of the classes makes this false, so a new trait has to be classified *)
+Definition write_traits : list Z := [T_MutBytes; T_MutByteArray; T_DerefMut; T_AsMut; T_AsMutArray; T_IndexMut; T_ResizableBytes; T_NewBytes; T_NewByteArray; T_Default].
+Definition read_traits : list Z := [T_Bytes; T_ByteArray; T_Deref; T_AsRef; T_AsRefArray; T_Index; T_Clone; T_PartialEq; T_Eq; T_Debug; T_Serialize].
+Definition neutral_traits : list Z := [T_Unlock; T_ProtectReadOnly; T_ProtectReadWrite; T_Zeroize; T_Drop; T_ZeroizeOnDrop].
+Definition mem (t : Z) (l : list Z) : bool := existsb (fun x => x =? t) l.
+Definition row_sound (row : Z * Z * Z * Z * list Z) : bool :=
+  let '(rt, rc, rpm, rlm, bnds) := row in
+  if mem rt write_traits then rpm =? 0
+  else if mem rt read_traits then (rpm =? 0) || (rpm =? 1)
+  else if rt =? T_Lock then rlm =? 0
+  else if rt =? T_ProtectNoAccess then rlm =? 0
+  else mem rt neutral_traits.
+Definition rows_sound : bool := forallb row_sound impl_rows.
 
 (* every transition consumes the region (self by value): use after a transition cannot compile *)
 Definition transitions_consume : bool := forallb (fun p : Z * bool => snd p) transition_by_value.
